@@ -4,6 +4,7 @@ import (
 	"fmt"
 	"go/ast"
 	"go/token"
+	"go/types"
 	"strings"
 
 	"golang.org/x/tools/go/packages"
@@ -146,6 +147,48 @@ func init() {
 			pk := pkgsMatching(c, relIn("d2layouts/d2sequence"))
 			runAxisClause(c, "C23.axis", pk, nil, 50)
 			runBoundsClause(c, "C23.bounds", pk, 1)
+			// "is a descendant of" by ID prefix needs the path separator: api is not an ancestor of api_cache
+			c.Rule("C23.prefix-boundary", "ancestor tests by ID prefix include the separator")
+			npre := 0
+			for _, p2 := range pk {
+				for _, fi := range c.P.Funcs(p2) {
+					info := fi.Pkg.TypesInfo
+					for _, call := range core.Calls(fi.Decl.Body, true) {
+						if !core.IsCallTo(info, call, "strings.HasPrefix") || len(call.Args) != 2 {
+							continue
+						}
+						isAbs := func(e ast.Expr) bool {
+							cl, ok := ast.Unparen(e).(*ast.CallExpr)
+							if !ok {
+								return false
+							}
+							sel, ok := cl.Fun.(*ast.SelectorExpr)
+							return ok && sel.Sel.Name == "AbsID"
+						}
+						hasAbs := false
+						ast.Inspect(call.Args[1], func(m ast.Node) bool {
+							if e, ok := m.(ast.Expr); ok && isAbs(e) {
+								hasAbs = true
+							}
+							return true
+						})
+						if !isAbs(call.Args[0]) || !hasAbs {
+							continue
+						}
+						npre++
+						okB := false
+						if be, ok := ast.Unparen(call.Args[1]).(*ast.BinaryExpr); ok && be.Op == token.ADD && isAbs(be.X) {
+							if tv, ok := info.Types[be.Y]; ok && tv.Value != nil && tv.Value.ExactString() == `"."` {
+								okB = true
+							}
+						}
+						c.Decide(okB, "C23.prefix-boundary", "prefix:"+fname(fi)+":"+exprStr(call.Args[1]), call.Pos(), "prefix is <ancestor ID> + \".\"", "an object is taken for a descendant of another because its ID merely starts with the other's ID (api / api_cache): a message between two different actors is routed as a self-loop")
+					}
+				}
+			}
+			if npre < 3 {
+				c.Fail("C23.prefix-boundary", "prefix:sites", token.NoPos, fmt.Sprintf("only %d ancestor tests by prefix found", npre))
+			}
 			// sorts in newSequenceDiagram use the earliest-line comparators
 			if fi := mustFunc(c, "d2layouts/d2sequence", "", "newSequenceDiagram"); fi != nil {
 				n := 0
@@ -405,6 +448,121 @@ func runC29(c *core.Check) {
 			return true
 		})
 		c.Decide(lists["Layers"] == 4 && lists["Scenarios"] == 4 && lists["Steps"] == 4, "C29.nested", "NestedBoundingBox:three-lists-four-bounds", nb.Decl.Pos(), "layers, scenarios, steps × (min x, min y, max x, max y)", fmt.Sprintf("NestedBoundingBox does not fold all four bounds over all three board lists (%v): boards of the missing kind or extent are cut off by the common viewport of animated and multi-board output", lists))
+	}
+	// style flags contribute independently: a shape may have a shadow and be 3D or multiple at once, and d2svg draws each
+	c.Rule("C29.independent-flags", "each boolean style of a shape extends the bounds independently of the others")
+	c.Rule("C29.label-guards", "the bounds include an arrowhead label under no stronger a condition than the one d2svg draws it under")
+	if bb := mustFunc(c, "d2target", "Diagram", "BoundingBox"); bb != nil {
+		info := bb.Pkg.TypesInfo
+		fl := core.NewFlow(bb.Pkg, bb.Decl.Body)
+		isFlag := func(e ast.Expr) string {
+			sel, ok := ast.Unparen(e).(*ast.SelectorExpr)
+			if !ok {
+				return ""
+			}
+			if v := core.FieldOf(info, sel); v != nil {
+				if b, ok := v.Type().Underlying().(*types.Basic); ok && b.Kind() == types.Bool && v.Pkg() != nil && core.RelPkg(v.Pkg().Path()) == "d2target" {
+					return v.Name()
+				}
+			}
+			return ""
+		}
+		nflag := 0
+		seen := map[string]bool{}
+		ast.Inspect(bb.Decl.Body, func(n ast.Node) bool {
+			as, ok := n.(*ast.AssignStmt)
+			if !ok || len(as.Rhs) != 1 {
+				return true
+			}
+			call, ok := as.Rhs[0].(*ast.CallExpr)
+			if !ok || minMaxKind(info, call) == "" {
+				return true
+			}
+			pos, neg := "", ""
+			for _, g := range fl.GuardsOfNode(as) {
+				for _, a := range g.Atoms() {
+					if f := isFlag(a.Cond); f != "" {
+						if a.True {
+							pos = f
+						} else {
+							neg = f
+						}
+					}
+				}
+			}
+			if pos == "" || seen[pos] {
+				return true
+			}
+			seen[pos] = true
+			nflag++
+			c.Decide(neg == "", "C29.independent-flags", "BoundingBox:"+pos, as.Pos(), "extends the bounds whenever "+pos+" is set", "the extent added for "+pos+" is only included when "+neg+" is not set: a shape with both styles is drawn with both offsets but the bounding box (and the viewport) accounts for one of them")
+			return true
+		})
+		if nflag < 3 {
+			c.Fail("C29.independent-flags", "BoundingBox:flags", bb.Decl.Pos(), fmt.Sprintf("only %d boolean styles extend the bounds, expected shadow, 3d and multiple", nflag))
+		}
+		// label guards
+		var drawFn *core.FuncInfo
+		if spk := c.P.Pkg("d2renderers/d2svg"); spk != nil {
+			for _, fi := range c.P.Funcs(spk) {
+				if len(callsIn(fi, false, "d2renderers/d2svg.renderArrowheadLabel")) >= 2 {
+					drawFn = fi
+				}
+			}
+		}
+		if drawFn == nil {
+			c.Fail("C29.label-guards", "draw-site", token.NoPos, "the function of d2svg that draws arrowhead labels was not found")
+		} else {
+			dfl := core.NewFlow(drawFn.Pkg, drawFn.Decl.Body)
+			norm := func(e ast.Expr) string {
+				s := exprStr(e)
+				// drop the root identifier (connection / conn / c)
+				if i := strings.Index(s, "."); i > 0 {
+					s = s[i:]
+				}
+				return s
+			}
+			for _, end := range []string{"SrcLabel", "DstLabel"} {
+				draw := map[string]bool{}
+				for _, call := range callsIn(drawFn, false, "d2renderers/d2svg.renderArrowheadLabel") {
+					if len(call.Args) < 2 || !strings.Contains(exprStr(call.Args[1]), "."+end+".") {
+						continue
+					}
+					for _, g := range dfl.GuardsOfNode(call) {
+						for _, a := range g.Atoms() {
+							if a.True {
+								draw[norm(a.Cond)] = true
+							}
+						}
+					}
+				}
+				var extra []string
+				found := false
+				ast.Inspect(bb.Decl.Body, func(n ast.Node) bool {
+					as, ok := n.(*ast.AssignStmt)
+					if !ok || len(as.Rhs) != 1 || !strings.Contains(exprStr(as.Rhs[0]), "."+end+".LabelWidth") {
+						return true
+					}
+					found = true
+					for _, g := range fl.GuardsOfNode(as) {
+						for _, a := range g.Atoms() {
+							if !strings.Contains(exprStr(a.Cond), "connection") && !strings.Contains(exprStr(a.Cond), end) {
+								continue
+							}
+							k := norm(a.Cond)
+							if !a.True {
+								k = "!(" + k + ")"
+							}
+							if !draw[k] {
+								extra = append(extra, exprStr(a.Cond))
+							}
+						}
+					}
+					return true
+				})
+				c.Decide(found && len(draw) > 0 && len(extra) == 0, "C29.label-guards", "BoundingBox:"+end, bb.Decl.Pos(), "same condition as the drawing code", fmt.Sprintf("the bounds include the %s only under the extra condition %v, which the drawing code does not have: the label is drawn but can lie outside the bounding box and the viewport", end, extra))
+			}
+		}
 	}
 	if dm := mustFunc(c, "d2renderers/d2svg", "", "dimensions"); dm != nil {
 		info := dm.Pkg.TypesInfo
